@@ -252,7 +252,7 @@ func init() {
 			o := baseOptions(env, i, r)
 			o.Kubelet = sim.KubeletOptions{MaxRun: 10}
 			return simCase{Opt: o, Prof: sim.Profile{MaxJobConfigs: 2, MinJobs: 2, MaxJobs: 7, OwnedBias: 50, Policies: allPolicies, MaxConcurrency: 2,
-				MaxAttempts: 1, StartAfterPct: 75, EditStartAfter: 30, KillPct: 5, DeletePct: 10, Spread: 30, Burst: true, TTL: []int64{10, 60}, LateJobConfigs: 15}}
+				MaxAttempts: 1, StartAfterPct: 75, EditStartAfter: 30, KillPct: 5, DeletePct: 10, Spread: 30, Burst: true, TTL: []int64{10, 60}, LateJobConfigs: 15, ForceRemovePct: 12}}
 		},
 		NonTrivial: func(w *sim.World) bool { return w.Mon.Evals["C07"] > 0 },
 	})
